@@ -147,7 +147,11 @@ def get_type_graph(t: type) -> graphlib.TopologicalSorter[TypeNode]:
             # We detected a cyclic type,
             #   wrap in a ForwardRef and don't add it to the stack
             #   This will terminate this edge to prevent infinite cycles.
-            if is_visited and can_be_cyclic:
+            if is_visited and is_subscripted and child is unwrapped:
+                # The name of a generic says nothing of its arguments (`list[Node]` is not `list`):
+                #   flag the annotation itself instead of a reference to it.
+                node = TypeNode(type=child, unwrapped=unwrapped, var=var, cyclic=True)
+            elif is_visited and can_be_cyclic:
                 qualname = inspection.qualname(child)
                 is_class = inspect.isclass(child)
                 is_argument = var is not None
@@ -193,7 +197,7 @@ class TypeNode:
     """The unwrapped type annotation for this node."""
     var: str | None = None
     """The variable or parameter name associated to the type annotation for this node."""
-    cyclic: bool = dataclasses.field(default=False, hash=False, compare=False)
+    cyclic: bool = False
     """Whether this type annotation is cyclic."""
 
     def __post_init__(self):
